@@ -42,7 +42,7 @@ DATA_TXT = 'Date,Description,Amount\n2024-01-05,NETFLIX.COM,15.99\n2024-01-07,UB
 shape_st = st.fixed_dictionaries({
     'layout': st.sampled_from(['old', 'new']),
     'settings': st.sampled_from(['plain', 'plain', 'with_rules', 'with_rules_views', 'no_trailing_newline', 'absent', 'starter', 'starter_merchants_hint']),
-    'rules': st.sampled_from(['absent', 'present', 'present']),
+    'rules': st.sampled_from(['absent', 'present', 'present', 'present', 'no_rules_yet', 'half_written']),
     'csv': st.sampled_from(['absent', 'rules', 'rules', 'empty']),
     'bak': st.booleans(), 'baks': st.sampled_from([[], [], ['.bak2'], ['.bak3'], ['.bak2', '.bak3'], ['.bak.old'], ['.backup']]), 'views': st.booleans(), 'notes': st.booleans(), 'gitignore': st.sampled_from([None, None, 'node_modules/\n*.pyc\n', '# mine\ndata/\n', 'output/\ndata/\n', '']), 'old_report': st.booleans(), 'data': st.booleans(),
     'crlf': st.sampled_from([False, False, True]),
@@ -90,6 +90,11 @@ class Folder:
             w('config/settings.yaml', text)
         elif shape['rules'] != 'absent' or shape['csv'] != 'absent' or shape['views']:
             os.makedirs(os.path.join(self.base, 'config'), exist_ok=True)
+        if shape['rules'] == 'no_rules_yet':
+            # hand-written, but only transforms / variables / notes so far - still the user's file
+            w('config/merchants.rules', '# my rules (work in progress)\nfield.memo = trim(field.memo)\nis_big = amount > 500\n# TODO: add sections\n')
+        if shape['rules'] == 'half_written':
+            w('config/merchants.rules', '# my rules\n[Netflix]\nmatch: contains("NETFLIX"\ncategory: Subscriptions\n\n[No Category Yet]\nmatch: contains("UBER")\n')
         if shape['rules'] == 'present':
             w('config/merchants.rules', RULES_TXT)
         if shape['csv'] != 'absent':
